@@ -226,6 +226,32 @@ var ruleQuotedLabels = &core.Rule{ID: "R12.11", Min: 4,
 		for _, f := range belowSniffer(cm.xml) {
 			if f != cm.plain && f != cm.bomFn && searchesFor(f, "encoding") {
 				nx += quotedValueChecks(c, s, f, "XML reader")
+				// what is searched for is the attribute name with its equals sign: the value starts right behind it
+				for _, ci := range core.Calls(f) {
+					cc := ci.Common()
+					g := cc.StaticCallee()
+					if g == nil || g.Pkg == nil || (g.Pkg.Pkg.Path() != "strings" && g.Pkg.Pkg.Path() != "bytes") || len(cc.Args) < 2 {
+						continue
+					}
+					k, ok := core.ConstString(cc.Args[1])
+					if !ok {
+						if kb, okb := tree.ConstBytes(cc.Args[1]); okb {
+							k, ok = string(kb), true
+						}
+					}
+					if !ok || !strings.Contains(strings.ToLower(k), "encoding") {
+						continue
+					}
+					key := fmt.Sprintf("XML reader %s: text searched for (%s)", core.FName(f), callOrdinal(ci))
+					switch k {
+					case "encoding=":
+						s.OK(key, c.Pos(ci.Pos()), "`encoding=`")
+					case "encoding":
+						s.Und(key, c.Pos(ci.Pos()), "the attribute name is searched without its equals sign: how the sign is consumed is not modelled")
+					default:
+						s.Bad(key, c.Pos(ci.Pos()), fmt.Sprintf("the declaration is searched for %q instead of `encoding=`: the value no longer starts right behind what was found (or the attribute is never found), so the declared encoding is lost", k))
+					}
+				}
 			}
 		}
 		if nx == 0 {
@@ -236,6 +262,27 @@ var ruleQuotedLabels = &core.Rule{ID: "R12.11", Min: 4,
 				continue
 			}
 			nh += quotedValueChecks(c, s, f, "pragma scanner")
+			// a bare label ends at the first HTML whitespace or semicolon (WHATWG step 8, unquoted case), nowhere else
+			for _, ci := range core.Calls(f) {
+				call, ok := ci.(*ssa.Call)
+				if !ok || !(core.CalleeIs(&call.Call, "strings", "IndexAny") || core.CalleeIs(&call.Call, "bytes", "IndexAny")) {
+					continue
+				}
+				key := fmt.Sprintf("pragma scanner %s: end of a bare label (%s)", core.FName(f), callOrdinal(call))
+				set, isK := core.ConstString(call.Call.Args[1])
+				if !isK {
+					s.Und(key, c.Pos(call.Pos()), "the set of terminating characters is not a constant")
+					continue
+				}
+				want := "; \t\n\f\r"
+				same := len(set) == len(want)
+				for _, w := range want {
+					if !strings.ContainsRune(set, w) {
+						same = false
+					}
+				}
+				s.Check(same, key, c.Pos(call.Pos()), "first of `; SP TAB LF FF CR`", fmt.Sprintf("a bare label is cut at the first of %q; the standard ends it at the first ASCII whitespace or semicolon only, so a label containing another of these characters is reported truncated, and one followed by a missing terminator runs on", set))
+			}
 			// whitespace between `charset` and `=`
 			for _, ci := range core.Calls(f) {
 				call, ok := ci.(*ssa.Call)
@@ -251,10 +298,13 @@ var ruleQuotedLabels = &core.Rule{ID: "R12.11", Min: 4,
 					srcs = ph.Edges
 				}
 				nTrim, nRaw, nOther := 0, 0, 0
+				extra := ""
 				for _, v := range srcs {
 					switch {
 					case isWSTrimValue(c, v):
 						nTrim++
+					case trimEatsLabel(v) != "":
+						extra = trimEatsLabel(v)
 					default:
 						if _, isSl := v.(*ssa.Slice); isSl {
 							nRaw++
@@ -264,6 +314,8 @@ var ruleQuotedLabels = &core.Rule{ID: "R12.11", Min: 4,
 					}
 				}
 				switch {
+				case extra != "":
+					s.Bad(key, c.Pos(call.Pos()), extra)
 				case nRaw > 0 && nTrim == 0 && nOther == 0:
 					s.Bad(key, c.Pos(call.Pos()), "the equals sign is expected right behind `charset`, the whitespace there is not skipped: `charset =x` (WHATWG step 4) is not recognised")
 				case nRaw == 0 && nOther == 0:
@@ -537,4 +589,23 @@ func usesValue(v, x ssa.Value, depth int) bool {
 		}
 	}
 	return false
+}
+
+// trimEatsLabel: v is a library trim whose constant cutset holds a character that is not HTML whitespace: it removes
+// such characters from the beginning of what follows (an equals sign, a label).
+func trimEatsLabel(v ssa.Value) string {
+	call, ok := v.(*ssa.Call)
+	if !ok || !(core.CalleeIs(&call.Call, "strings", "TrimLeft") || core.CalleeIs(&call.Call, "strings", "Trim")) {
+		return ""
+	}
+	k, isK := core.ConstString(call.Call.Args[1])
+	if !isK {
+		return ""
+	}
+	for _, w := range k {
+		if !strings.ContainsRune(" \t\n\f\r", w) {
+			return fmt.Sprintf("the whitespace skip removes %q as well (cutset %q): a label or separator beginning with that character loses it", w, k)
+		}
+	}
+	return ""
 }
